@@ -235,4 +235,19 @@ Definition m_step (st : mstate) (o : mop) : option (mstate * list msg * Z) :=
   | MMidi c t v => Some (handle_midi c t v st)
   end.
 
+(* state after a history and the messages of every operation *)
+Fixpoint m_run (ops : list mop) (st : mstate) : option (mstate * list (list msg)) :=
+  match ops with
+  | [] => Some (st, [])
+  | o :: r =>
+      match m_step st o with
+      | None => None
+      | Some (st', ms, _) =>
+          match m_run r st' with
+          | Some (st'', mss) => Some (st'', ms :: mss)
+          | None => None
+          end
+      end
+  end.
+
 End Oracles.
